@@ -223,7 +223,8 @@ def check_C05(tier, seed, replay=None):
     cfg = F.RandCfg(depth=4, maxrules=3, state=True, cloner=True, gstore=True, preds=True)
     groups += F.random_groups(seed, nrand, cfg, gi0=len(groups) + 1)
     inputs = F.all_inputs([F.A, F.B], maxlen)
-    options = [opt(), opt(maxexpr=3000), opt(initx=2, initg=3), opt(initx=1, initg=1, maxexpr=3000)]    # InitState / GlobalStore options
+    options = [opt(), opt(maxexpr=3000), opt(initx=2, initg=3), opt(initx=1, initg=1, maxexpr=3000), opt(debug=True)]    # InitState / GlobalStore options; Debug for T2
+    run.keep_debug = True
     nin = len(inputs)
     lrin = add_lr(groups, inputs, 60 if tier == "quick" else 400, seed)     # state blocks inside left-recursive growth
     bp = budget_plan(nin, lr_inputs=lrin)
@@ -232,9 +233,12 @@ def check_C05(tier, seed, replay=None):
         pl = bp(g)
         if "lr" not in g.tags:
             pl = pl + [(ii, 3 if g.maydiverge else 2) for ii in range(0, nin, 2)]
+            if not g.maydiverge and g.gi % 3 == 0:
+                pl = pl + [(ii, 4) for ii in range(0, nin, 2)]
         return pl
     div, tot = run.execute(groups, inputs, options, plan5, flagsets)
     design_level(run, groups, inputs, options, lambda g: [1] if g.maydiverge else [0], 400 if tier == "quick" else 100000, inputs_idx=range(nin))
+    t2_bind(run, 1500 if tier == "quick" else 15000)
     return std_finish(run, div, tot, "state blocks (shallow set/inc, in-place Cloner append, globalStore increments) at every position of E(d) skeletons + random grammars with state predicates; every event carries the store and globalStore its block saw and the entry action returns the final store; all inputs over {a,b} up to the bound")
 
 
@@ -558,7 +562,9 @@ def check_C16(tier, seed, replay=None):
         if g.gi % 4 == 0:
             pl += [(ii, oi) for ii in range(long_first, long_first + 3) for oi in long_opts if not (g.maydiverge and options[oi]["memo"])]
         return pl
+    run.keep_debug = True
     div, tot = run.execute(groups, inputs, options, plan_for, [[], ["-optimize-parser"]], timeout_ms=4000)
+    t2_bind(run, 1500 if tier == "quick" else 10000)
     # design level: M under budgets, with Termination as a liveness property (weak fairness, lists abstracted to 2 elements).
     # (i) as the property demands (a memo hit is charged): every run terminates;
     bud = [i for i, o in enumerate(options[:nopt]) if o["maxexpr"] in (5, 12) and o["recover"]]
@@ -1239,7 +1245,8 @@ def check_C04(tier, seed, replay=None):
             ps = [p.strip() for p in params.replace(" any", "").split(",") if p.strip()]
             by.setdefault(mn, ps)
         for g in gs:
-            ms = [[mn, ps] for mn, ps in by.items() if any(mn.startswith("on" + idn) and mn[len("on" + idn):].isdigit() for idn in [g.rname(i + 1) for i in range(len(g.rules))])]
+            ms = [[mn, ps] for mn, ps in by.items() if any(mn.startswith("on" + idn) and mn[len("on" + idn):] and all(ch.isdigit() or ch == "_" for ch in mn[len("on" + idn):])
+                                                         for idn in [g.rname(i + 1) for i in range(len(g.rules))])]
             lines.append(json.dumps(dict(gi=g.gi, vi=combos.index(fl) + 1 if fl in combos else 0, methods=ms)) + "\n")
     for gi, fid in wit.items():
         if fid == "F13":
